@@ -242,6 +242,10 @@ def _write_node(w, tagged):
     elif k == 'eval':
         n = tdoc.raw('note(' + ', '.join([str(w[1])] + w[2]) + ')', '!eval', q='dq')
     elif k == 'fstr':
+        if tagged:
+            # the explicit tag !fstr cannot be combined with !unsafe, the implicit spelling (a plain scalar that looks like an f-string) can
+            n = {'t': 'raw', 'text': "f'F{note(" + ', '.join([str(w[1])] + w[2]) + ")}'", 'q': 'verbatim', 'unsafe': True, 'mdstyle': 'short'}
+            return n
         n = tdoc.raw('F{note(' + ', '.join([str(w[1])] + w[2]) + ')}', '!fstr', q='dq')
     elif k == 'import':
         n = tdoc.raw(f'vfrec.imp_{w[1]}', '!import')
@@ -307,7 +311,7 @@ def _effective_tag(w, tagged):
     """Whether the !unsafe tag could actually be written on this node (see _write_node)."""
     if not tagged:
         return False
-    return w[0] not in ('fstr', 'import', 'del', 'rec')
+    return w[0] not in ('import', 'del', 'rec')
 
 
 def provenance(case):
